@@ -151,6 +151,8 @@ func genKeyTable() string {
 	stream("types/floattype.go", "floatValue")
 	stream("types/regexptype.go", "Regexp")
 	stream("types/tupletype.go", "TupleType")
+	stream("types/timespantype.go", "Timespan")
+	stream("types/timestamptype.go", "Timestamp")
 	rows = append(rows, row{"UndefValue", firstByteLit(findFunc(parseFile("types/undeftype.go"), "UndefValue", "ToKey"), hk)})
 	rows = append(rows, row{"DefaultValue", firstByteLit(findFunc(parseFile("types/defaulttype.go"), "DefaultValue", "ToKey"), hk)})
 	bf := parseFile("types/booleantype.go")
